@@ -10,7 +10,7 @@ import (
 // decoder returns or errors (never panics); on success re-encoding gives the
 // input back and decoding that again is a fixpoint.
 func ZZ_C12_cursor_decode_total() {
-	in := zzsym.Bytes("in", 12)
+	in := zzsym.Bytes("in", zzC12CursorBytes)
 	out, err := bytesToBatchData(in)
 	if err != nil {
 		zzsym.Reach("decode-error")
@@ -36,7 +36,7 @@ func ZZ_C12_cursor_roundtrip() {
 	n := zzsym.Pick("n", 4)
 	var x [][]byte
 	for i := 0; i < n; i++ {
-		x = append(x, zzsym.Bytes("e", 3))
+		x = append(x, zzsym.Bytes("e", zzC12EntryBytes))
 	}
 	enc := convertBatchDataToBytes(x)
 	zzsym.ObserveBytes("enc", enc)
